@@ -155,7 +155,7 @@ func (fc *FnCtx) constVal(c *ssa.Const) Val {
 }
 
 func (fc *FnCtx) floatConst(s string) *Term {
-	return app("fconst_"+mangle(s), SInt) // nullary uninterpreted symbol: rendered as a constant below
+	return mkConst("fconst_"+mangle(s), SInt) // one uninterpreted constant per float literal
 }
 
 func (fc *FnCtx) stringConst(s string) *Term {
